@@ -64,6 +64,7 @@ def run(ck):
     spec_precedence(ck)
     literal_path(ck)
     stateless_tokens(ck)
+    placeholder_text_intact(ck)
 
 
 def token_fns(F, method):
@@ -737,3 +738,57 @@ def padding_table(ck, F, en):
           "padding side, centre split floor(p/2) left, kept end on truncation and the no-op cases all as documented" % n if not wrong else
           "applyPadding differs from the documented behaviour in %d of %d cases, e.g. %s" % (len(wrong), n, "; ".join(wrong[:3])), key="applyPadding|table")
     return True
+
+
+def placeholder_text_intact(ck):
+    """C12-O6: the text between `%{` and `}` reaches the dispatch as written, less a trailing `:spec` that parses as a format
+    specification.  Attribute names are free text (they may contain spaces); cutting the placeholder anywhere else before the name test
+    looks the wrong attribute up, and turns an unknown placeholder into a different literal."""
+    F = ck.facts
+    ck.rule("C12-O6", "parsePattern(): the placeholder text is modified before the dispatch only by removing a trailing ':spec' found with lastIndexOf(':'); the keyword-specific arguments (time FORMAT, shortfile BASE, if-TYPE, attr?N,M) are read from it without changing it")
+    fn = F.fn("PatternFormatterPrivate::parsePattern")
+    ck.touch(fn)
+    ph = None
+    for dn in fn.find(lambda n: n.get("k") == "decl"):
+        for v in dn.get("vars", []):
+            i = skip_copies(v.get("init")) if isinstance(v.get("init"), dict) else None
+            if i is not None and is_call(i, "QString::mid") and "QString" in (v.get("type") or "") and len(i.get("args", [])) >= 2 and \
+                    any(x.get("k") == "binop" and x.get("op") == "+" and const_int(x.get("rhs")) == 2 for x in walk(i["args"][0])):
+                ph = v
+    if ph is None:
+        ck.ob("C12-O6", sitestr(fn), None, "the local holding the placeholder text (pattern.mid(pos + 2, ...)) was not found", key="parsePattern|placeholder-intact")
+        return
+    d = ph["decl"]
+    MUT = ("truncate", "chop", "remove", "replace", "resize", "clear", "insert", "prepend", "append", "fill", "squeeze", "swap")
+    writes = []
+    for n in fn.all_nodes():
+        if n.get("k") == "call" and n.get("ck") == "operator" and n.get("op") in ("=", "+=") and n.get("args") and is_ref_to(skip_copies(n["args"][0]), d):
+            writes.append((n, n["args"][1]))
+        elif n.get("k") == "binop" and n.get("op") in ("=", "+=") and is_ref_to(n.get("lhs"), d):
+            writes.append((n, n.get("rhs")))
+        elif n.get("k") == "call" and n.get("ck") == "member" and (n.get("callee") or "").split("::")[-1] in MUT and is_ref_to(skip_copies(n.get("obj") or {}), d):
+            writes.append((n, n))
+
+    def cut_char(fn_, e):
+        """the constant character whose position bounds the cut, if the cut position comes from indexOf/lastIndexOf(<char>)"""
+        for x in walk(e):
+            y = skip_copies(deref_local(fn_, x)) if x.get("k") == "ref" else x
+            for z in walk(y):
+                if is_call(z, ("QString::indexOf", "QString::lastIndexOf")) and z.get("args"):
+                    from engine.strabs import const_char
+                    c = const_char(z["args"][0])
+                    if c is not None:
+                        return c, (z.get("callee") or "").split("::")[-1]
+        return None, None
+    bad = 0
+    for n, rhs in writes:
+        c, how = cut_char(fn, rhs)
+        ok = c == ":" and how == "lastIndexOf" and (is_call(skip_copies(rhs), "QString::left") or (n.get("k") == "call" and (n.get("callee") or "").endswith("truncate")))
+        if not ok:
+            bad += 1
+            ck.ob("C12-O6", sitestr(fn, n), False if c is not None else None,
+                  "parsePattern() cuts the placeholder text at %s before the dispatch (%s): every placeholder is affected, not only the keyword it was meant for — an attribute `%%{request id}` is looked up as `request`, "
+                  "an unknown `%%{no such thing}` is reproduced as `%%{no}`" % (repr(c), describe(n)[:50]) if c is not None else
+                  "parsePattern() modifies the placeholder text (%s) in a way this rule cannot classify" % describe(n)[:50], key="parsePattern|placeholder-intact")
+    if not bad:
+        ck.ob("C12-O6", sitestr(fn), True, "the placeholder text is modified only by dropping a trailing ':spec' (%d write site%s)" % (len(writes), "" if len(writes) == 1 else "s"), key="parsePattern|placeholder-intact")
